@@ -1,4 +1,6 @@
+import Std.Data.String.ToNat
 import XsModel.Handler
+import XsProofs.ListAux
 namespace Xs.Serve
 
 theorem find?_filter_ne (l : List (String × String)) (k k' : String) (hne : k' ≠ k) :
@@ -350,5 +352,27 @@ theorem invocations_in_id_order (cfg : HCfg) (eval : σ → SFrame → σ × Eva
       (fun f => f ≠ thr)).Pairwise (fun a b => a.id < b.id) := by
   have h1 := (invocations_sublist cfg eval st env (subscription cfg resume hist live thr)).filter (fun f => f ≠ thr)
   exact (hs.sublist (subscription_sublist cfg resume hist live thr)).sublist h1
+
+theorem idText_inj {a b : Nat} (h : idText a = idText b) : a = b := by
+  unfold idText at h
+  exact Nat.repr_inj.mp ((String.append_right_inj "id:").mp h)
+
+/-- C15/C14: the outputs of two instances with different ids, however they interleave in the
+    stream, are told apart by their stamp: selecting by `handler_id` gives back one instance's
+    output, complete and in its own order -/
+theorem outputs_separate_by_stamp (cfg1 cfg2 : HCfg) (eval1 eval2 : σ → SFrame → σ × EvalRes)
+    (st1 st2 : HState) (env1 env2 : σ) (l1 l2 m : List SFrame) (hne : cfg1.id ≠ cfg2.id)
+    (h : Xs.Interleave (run cfg1 eval1 st1 env1 l1).2.2.1 (run cfg2 eval2 st2 env2 l2).2.2.1 m) :
+    m.filter (fun o => metaGet o.mdata "handler_id" = some (idText cfg1.id)) = (run cfg1 eval1 st1 env1 l1).2.2.1 := by
+  apply Xs.interleave_filter _ h
+  · intro o ho
+    have := outputs_are_skipped cfg1 eval1 st1 env1 l1 o ho
+    simpa [isOwn] using this
+  · intro o ho
+    have := outputs_are_skipped cfg2 eval2 st2 env2 l2 o ho
+    simp only [isOwn, decide_eq_true_eq] at this
+    simp only [this, Option.some.injEq, decide_eq_false_iff_not]
+    intro e
+    exact hne (idText_inj e).symm
 
 end Xs.Serve
